@@ -305,7 +305,9 @@ func c06ReuseCases() []c06Reuse {
 			func(h, root *gorm.DB) { var o Owner; h.First(&o) },
 			func(h, root *gorm.DB) { var os []Owner; h.Find(&os) }},
 		{"preload-find-twice",
-			func(db *gorm.DB, x int) *gorm.DB { return sess(db.Preload("Pets", "name <> ?", "x").Where("id > ?", x)) },
+			func(db *gorm.DB, x int) *gorm.DB {
+				return sess(db.Preload("Pets", "name <> ?", "x").Where("id > ?", x))
+			},
 			func(h, root *gorm.DB) { var os []Owner; h.Find(&os) },
 			func(h, root *gorm.DB) { var os []Owner; h.Find(&os) }},
 	}
